@@ -171,7 +171,7 @@ func TestWorker(t *testing.T) {
 		}
 		account(i, plan, res, sample)
 		n++
-		if n%200 == 0 {
+		if n%200 == 0 || (job.Engine != "A" && n%10 == 0) {
 			flush()
 		}
 	}
